@@ -233,6 +233,9 @@ type sweep struct {
 	fam   family
 }
 
+// the sweep of this name runs with middleware.Debug = true; every request is served several times
+const debugSweep = "debug-logging-on"
+
 func bases(bs ...string) []Desc {
 	var out []Desc
 	for _, b := range bs {
@@ -247,6 +250,7 @@ func bases(bs ...string) []Desc {
 
 func main() {
 	r := report.Start("C01", "exploration")
+	silence()
 	started := time.Now()
 	// quick has 60 s of wall time including the build on a shared machine: stop enumerating at 42 s (thorough: 10 min, stop at 8.5 min)
 	// (the run is then reported exhaustive:false, never as a failure)
@@ -369,6 +373,24 @@ func main() {
 		sweeps = append(sweeps, sweep{"placeholder-names", "routes", nd, qf})
 		sweeps = append(sweeps, sweep{"every-verb-every-template", "routes", verbDescs, verbFam})
 	}
+	// configuration dimension "debug logging on": the method-centred descriptions again, with
+	// middleware.Debug = true, judged against the SAME expectations
+	var dbg []Desc
+	for _, sw := range sweeps {
+		if sw.name == "every-verb-every-template" || sw.name == "all-verbs" || (sw.name == "methods" && !r.Thorough()) {
+			dbg = append(dbg, sw.descs...)
+		}
+	}
+	if r.Thorough() {
+		dbg = append(dbg, descsFromSets([]string{"/", "/a", "/a/{p}", "/{p}", "/a/"}, 1, 2, bases("/api"),
+			assignments([][]string{{"GET"}, {"POST"}, {"GET", "POST"}, {"DELETE", "GET"}}))...)
+	}
+	sweeps = append(sweeps, sweep{debugSweep, "routes", dbg, verbFam})
+	debugRepeat := 2
+	if r.Thorough() {
+		debugRepeat = 3
+	}
+	r.Set("debug_mode_repeats_per_request", debugRepeat)
 	r.Set("template_universe", universe)
 	r.Set("template_universe_methods_sweep", small)
 	r.Set("segment_alphabet", fullAlpha)
@@ -414,11 +436,17 @@ func main() {
 		stride := n/2 + 1
 		sweepSamples := map[int][]any{}
 		rot := int(r.Seed%int64(n)+int64(n)) % n
+		repeat := 1
+		inDebug := sw.name == debugSweep
+		if inDebug {
+			repeat = debugRepeat
+			setDebug(true) // no worker is running between sweeps
+		}
 		enum.Parallel(n, stop, func(k int) {
 			d := sw.descs[(k+rot)%n]
 			b, err := build(d, sw.via)
 			if err != nil {
-				r.Fail("description-rejected", err.Error(), Case{Desc: d, Via: sw.via, Method: "GET", Target: "/"})
+				r.Fail("description-rejected", err.Error(), Case{Desc: d, Via: sw.via, Debug: inDebug, Method: "GET", Target: "/"})
 				return
 			}
 			w := newWire()
@@ -434,9 +462,17 @@ func main() {
 				esc := req.URL.EscapedPath()
 				o := b.serve(req)
 				evals++
-				class, what, determined := judge(b.routes, req.Method, esc, o)
+				class, what, determined := judgeIn(inDebug, b.routes, req.Method, esc, o)
+				// with debug logging on the library ranges over its per-method map once more per lookup
+				// (Go randomises the order per range): the same request is served again
+				for rep := 1; rep < repeat && class == ""; rep++ {
+					req, _ = w.parse(rawRequest(q.method, q.target))
+					o = b.serve(req)
+					evals++
+					class, what, determined = judgeIn(inDebug, b.routes, req.Method, esc, o)
+				}
 				if class != "" {
-					r.Fail(class, what, Case{Desc: d, Via: sw.via, Method: q.method, Target: q.target})
+					r.Fail(class, what, Case{Desc: d, Via: sw.via, Debug: inDebug, Method: q.method, Target: q.target})
 				}
 				switch {
 				case o.Panic != "":
@@ -454,7 +490,7 @@ func main() {
 				}
 				if k%stride == stride/2 && !sampled && (len(o.Runs) > 0 || o.Status == 405) && qi >= (k*131+int(r.Seed%997+997))%len(reqCache[d.Base])/2 {
 					sampled = true
-					samples = append(samples, map[string]any{"case": Case{Desc: d, Via: sw.via, Method: q.method, Target: q.target}, "observed": o.String()})
+					samples = append(samples, map[string]any{"case": Case{Desc: d, Via: sw.via, Debug: inDebug, Method: q.method, Target: q.target}, "observed": o.String()})
 				}
 			}
 			r.Eval(evals)
@@ -466,6 +502,7 @@ func main() {
 			sweepSamples[k] = samples
 			mu.Unlock()
 		})
+		setDebug(false)
 		for k := 0; k < n; k++ {
 			for _, v := range sweepSamples[k] {
 				r.Sample(v)
@@ -481,5 +518,5 @@ func main() {
 		"net/http's request parsing (http.ReadRequest, URL.EscapedPath) and net/url.PathUnescape are trusted",
 		"descriptions in which two operations of one method have the same shape are wired by the library in Go map order; one order is explored per run",
 	)
-	r.Finish("every description of the stated families (template sets x method assignment x base path; template shapes x every ordered selection of distinct placeholder names from the stated name alphabet) x every request line of the family for its base path (symbol sequences up to the stated length x methods x trailing decorations x right/noisy/absent/wrong base prefix); one evaluation = one request served by the real handler chain and compared with the reference dispatcher; non-trivial = a handler ran, or the answer was 405, or the oracle failed (distinct by construction: descriptions are distinct sets, request lines are de-duplicated per description)", !ownCut)
+	r.Finish("every description of the stated families (template sets x method assignment x base path; template shapes x every ordered selection of distinct placeholder names from the stated name alphabet) x every request line of the family for its base path (symbol sequences up to the stated length x methods x trailing decorations x right/noisy/absent/wrong base prefix); one evaluation = one request served by the real handler chain and compared with the reference dispatcher; non-trivial = a handler ran, or the answer was 405, or the oracle failed (distinct by construction: descriptions are distinct sets, request lines are de-duplicated per description; the sweep debug-logging-on repeats the method-centred descriptions with middleware.Debug = true against the same expectations and serves each request the stated number of times, each serving being one evaluation)", !ownCut)
 }
